@@ -333,8 +333,8 @@ class NpCalls:
                     if g[1] == 'W2':
                         ng = ('FDIFF', 'W1', direction)
                     elif g[1] == 'W1' and len(g) > 2 and g[2] != direction:
-                        ng = ('FDIFF', 'MI')
-                    elif g[1] == 'MI':
+                        ng = ('FDIFF', 'CW')
+                    elif g[1] in ('MI', 'CW'):
                         ng = g
                     else:
                         ng = g
